@@ -109,6 +109,24 @@ type Named struct {
 
 type Empty struct{}
 
+// tags in the option syntax of other tag readers: for the form codec the whole tag is the key
+type CommaInner struct {
+	City string  `form:"city,omitempty"`
+	Zip  []int32 `form:",omitempty"`
+}
+
+type CommaTags struct {
+	Name  string     `form:"name,omitempty"`
+	Age   uint8      `form:"age"`
+	Tags  []string   `form:"tags,omitempty,string"`
+	Pair  [2]uint64  `form:"pair,string"`
+	Dash  int        `form:"-"`
+	Opt   bool       `form:",inline"`
+	Inner CommaInner `form:""`
+	J     int16      `json:"j,omitempty" form:"jj," xml:"j,attr"`
+	K     []bool     `json:"k,omitempty"`
+}
+
 type OneSlice struct {
 	A []int `form:"a"`
 }
@@ -185,6 +203,7 @@ var formTypes = []formType{
 	{"Empty", reflect.TypeOf(Empty{}), true},
 	{"OneSlice", reflect.TypeOf(OneSlice{}), true},
 	{"OneArray", reflect.TypeOf(OneArray{}), true},
+	{"CommaTags", reflect.TypeOf(CommaTags{}), true},
 	{"Ptrs", reflect.TypeOf(Ptrs{}), false},
 	{"Dup", reflect.TypeOf(Dup{}), false},
 	{"DupNested", reflect.TypeOf(DupNested{}), false},
